@@ -7,17 +7,19 @@ package utils
 //
 // rdStream[r] is the (infinite) byte sequence reader r yields, rdPos[r] how much of it has been consumed.
 
+// brsBase[b] is how much of the wrapped reader had been consumed when b was created: positions are relative to it.
+//@ pure brsRel(b ref) int = rdPos[b.r] - brsBase[b]
 //@ pure brsOK(b ref) bool = b != nil && b.r != nil && 0 <= b.readHead && b.readHead <= b.writeHead && b.writeHead <= len(b.buf)
-//@   | && rdPos[b.r] >= 0 && b.writeHead == min(rdPos[b.r], len(b.buf))
-//@   | && forall(k, 0, b.writeHead, b.buf[k] == rdStream[b.r][k])
-//@   | && (rdPos[b.r] > len(b.buf) ==> b.readHead == b.writeHead)
-//@ pure brsPos(b ref) int = ite(b.readHead < b.writeHead, b.readHead, rdPos[b.r])
+//@   | && brsRel(b) >= 0 && b.writeHead == min(brsRel(b), len(b.buf))
+//@   | && forall(k, 0, b.writeHead, b.buf[k] == rdStream[b.r][brsBase[b] + k])
+//@   | && (brsRel(b) > len(b.buf) ==> b.readHead == b.writeHead)
+//@ pure brsPos(b ref) int = ite(b.readHead < b.writeHead, b.readHead, brsRel(b))
 
 //@ func (*bufferedReadSeeker).Read props(C06,C05,C07)
 //@   requires brsOK(b) && base(p) != base(b.buf)
 //@   assigns b.readHead, b.writeHead, elems(b.buf), elems(p), ghost rdPos[b.r], ghost rdCalls[b.r]
 //@   ensures[C06:inv] brsOK(b)
-//@   ensures[C06:stream-prefix] forall(k, 0, r0, p[k] == rdStream[b.r][old(brsPos(b)) + k])
+//@   ensures[C06:stream-prefix] forall(k, 0, r0, p[k] == rdStream[b.r][brsBase[b] + old(brsPos(b)) + k])
 //@   ensures[C06:position] brsPos(b) == old(brsPos(b)) + r0
 //@   ensures[C05:one-source-read] rdCalls[b.r] == old(rdCalls[b.r]) + 1
 //@   ensures[C05:returns-what-it-read] r0 >= rdPos[b.r] - old(rdPos[b.r])
@@ -27,7 +29,7 @@ package utils
 //@   assigns b.readHead
 //@   ensures[C06:inv] brsOK(b)
 //@   ensures[C06:seek-ok] (r1 == nil) <==> (whence == 0 && 0 <= offset && offset < len(b.buf) && b.writeHead < len(b.buf))
-//@   ensures[C06:replayable] r1 == nil ==> brsPos(b) == offset && rdPos[b.r] < len(b.buf)
+//@   ensures[C06:replayable] r1 == nil ==> brsPos(b) == offset && brsRel(b) < len(b.buf)
 //@   ensures[C06:seek-fail-noop] r1 != nil ==> b.readHead == old(b.readHead)
 
 // ---- exponential backoff (C08): target(n) = min(2^n ms, 3 s), constants from the property statement ----
@@ -63,6 +65,15 @@ package utils
 //@ func ReadRequest props(C01,C04,C07)
 //@   requires client != nil
 //@   assigns heap
+//@   ghost cb int = 0
+//@   call getRequestWithRetries
+//@     assert[C01:fetch-under-given-ids] arg2 == backendID && arg3 == requestID
+//@   call parseRequestFromProxyResponse
+//@     assert[C01:parse-under-given-ids] arg0 == backendID && arg1 == requestID && arg2 == proxyResp
+//@   call funcvalue:utils.RequestCallback
+//@     assert[C04:callback-once] cb == 0 && arg1 == fr && fr != nil && fr.Contents != nil && fr.Contents.Header != nil
+//@     do cb = cb + 1
+//@   ensures[C04:callback-at-most-once] cb <= 1
 
 // ---- streamingResponseWriter (C03, C05) ----
 // mustDrop: the hop-by-hop names of RFC 7230 section 6.1 in canonical form (from the property);
@@ -173,3 +184,70 @@ package utils
 //@     assigns mapof(w.trailer)
 //@     invariant[C03:c4] w.trailer != nil && w.header != nil && w.trailer != w.header && w.bodyWriter == old(w.bodyWriter) && canonKeys(w.trailer) && canonKeys(w.header) && prefixedCanon(w.header) && closes == 0 && canon(k) == k && !mayDrop(k)
 //@     invariant[C03:c4-nohop] forall_str(t, in(t, w.trailer) ==> !mayDrop(t))
+
+
+//@ func newBufferedReadSeeker props(C06,C07)
+//@   requires r != nil && bufSize >= 0
+//@   assigns ghost brsBase
+//@   return *
+//@     do brsBase[ret0] = rdPos[r]
+//@   ensures[C06:fresh-buffer] r0 != nil && fresh(r0) && r0.r == r && len(r0.buf) == bufSize && r0.readHead == 0 && r0.writeHead == 0 && fresh(r0.buf)
+//@   ensures[C06:base-is-now] brsBase[r0] == rdPos[r] && forall_int(o, o != r0 ==> brsBase[o] == old(brsBase[o]))
+
+// postResponseWithRetries (C06, C01): at most three POSTs; every attempt starts with the body positioned at the first
+// byte of the stream and carries the ids of this response; a failed seek ends the retries.
+// What the transport does with the body during Do is the extern assumption "an arbitrary sequence of Read calls"
+// (sound because Read preserves brsOK); it is introduced by the havoc/assume pair on the Do hook.
+//@ func postResponseWithRetries props(C06,C01,C07)
+//@   requires client != nil && proxyReader != nil && rdPos[proxyReader] >= 0
+//@   ghost attempts int = 0
+//@   ghost brs *bufferedReadSeeker = nil
+//@   ghost bodyH ref = nil
+//@   ghost seekFailed bool = false
+//@   ghost lent bool = false
+//@   call newBufferedReadSeeker
+//@     assert[C06:replay-window-4k] arg0 == proxyReader && arg1 == 4096
+//@     do brs = ret0
+//@   call http.NewRequest
+//@     assert[C01:post-to-given-url] arg0 == "POST" && arg1 == proxyURL
+//@     do bodyH = arg2
+//@   call (*http.Client).Do
+//@     assert[C06:max-three-attempts] attempts < 3 && !seekFailed
+//@     assert[C06:attempt-starts-at-first-byte] brsOK(brs) && brsPos(brs) == 0
+//@     assert[C06:same-body-every-attempt] arg0 == client && arg1 == proxyReq && arg1.Body == bodyH
+//@     assert[C01:upload-carries-own-ids] len(values(arg1.Header, "X-Inverting-Proxy-Backend-ID")) == 1 && values(arg1.Header, "X-Inverting-Proxy-Backend-ID")[0] == backendID
+//@     |   && len(values(arg1.Header, "X-Inverting-Proxy-Request-ID")) == 1 && values(arg1.Header, "X-Inverting-Proxy-Request-ID")[0] == requestID
+//@     havoc brs.readHead, brs.writeHead, elems(brs.buf)
+//@     assume brsOK(brs)
+//@     do attempts = attempts + 1
+//@     do lent = true
+//@   call (*bufferedReadSeeker).Seek
+//@     assert[C06:seek-to-start] arg0 == brs && arg1 == 0 && arg2 == 0
+//@     assert[C06:body-not-in-use-by-transport] !lent
+//@     do seekFailed = ret1 != nil
+//@   loop 1
+//@     invariant[C06:attempt-count] attempts == retryCount && 0 <= retryCount && retryCount <= 3 && !seekFailed
+//@     invariant[C06:rewound] brs != nil && brsOK(brs) && brsPos(brs) == 0 && proxyReadSeeker == brs && proxyReq != nil && proxyReq.Body == bodyH && proxyReq.Header != nil
+//@     invariant[C01:ids-kept] len(values(proxyReq.Header, "X-Inverting-Proxy-Backend-ID")) == 1 && values(proxyReq.Header, "X-Inverting-Proxy-Backend-ID")[0] == backendID
+//@     |   && len(values(proxyReq.Header, "X-Inverting-Proxy-Request-ID")) == 1 && values(proxyReq.Header, "X-Inverting-Proxy-Request-ID")[0] == requestID
+
+// ---- fetching a forwarded request (C01, C04, C09) ----
+//@ func getRequestWithRetries props(C01,C07)
+//@   requires client != nil
+//@   ghost tries int = 0
+//@   call (*http.Client).Do
+//@     assert[C01:fetch-carries-own-ids] len(values(arg1.Header, "X-Inverting-Proxy-Backend-ID")) == 1 && values(arg1.Header, "X-Inverting-Proxy-Backend-ID")[0] == backendID
+//@     |   && len(values(arg1.Header, "X-Inverting-Proxy-Request-ID")) == 1 && values(arg1.Header, "X-Inverting-Proxy-Request-ID")[0] == requestID
+//@     assert[C07:bounded-fetch-retries] tries < 3
+//@     do tries = tries + 1
+//@   ensures[C07:response-or-error] r1 == nil ==> r0 != nil && r0.Body != nil && r0.Header != nil
+//@   loop 1
+//@     invariant[C07:fetch-loop] 0 <= retryCount && tries == retryCount && proxyReq != nil && proxyReq.Header != nil && (retryCount > 0 ==> err != nil || (proxyResp != nil && proxyResp.Body != nil && proxyResp.Header != nil))
+//@     invariant[C01:fetch-ids-kept] len(values(proxyReq.Header, "X-Inverting-Proxy-Backend-ID")) == 1 && values(proxyReq.Header, "X-Inverting-Proxy-Backend-ID")[0] == backendID
+//@     |   && len(values(proxyReq.Header, "X-Inverting-Proxy-Request-ID")) == 1 && values(proxyReq.Header, "X-Inverting-Proxy-Request-ID")[0] == requestID
+
+//@ func parseRequestFromProxyResponse props(C01,C09,C07)
+//@   requires proxyResp != nil && proxyResp.Header != nil && proxyResp.Body != nil
+//@   ensures[C01:ids-recorded] r1 == nil ==> r0 != nil && r0.BackendID == backendID && r0.RequestID == requestID && r0.Contents != nil && r0.Contents.Header != nil
+//@   ensures[C09:user-is-the-proxy-asserted-one] r1 == nil ==> r0.User == old(hget(proxyResp.Header, "X-Inverting-Proxy-User-ID"))
+//@   ensures[C07:nil-on-error] r1 != nil ==> r0 == nil
